@@ -249,6 +249,16 @@ Expire(id) ==
 -----------------------------------------------------------------------------
 (* Server: the KCP listener on top of the QueuePacketConn. *)
 
+(* kcp-go keys its listener table by RemoteAddr().String() of the tag.  The
+   design needs that key to be injective on ClientIDs: ClientID.String() is the
+   hex form of all eight bytes.  (Which byte patterns the ClientIDs of two
+   live sessions have - equal but for the last byte, equal but for the first,
+   shared 4-byte prefix, all-zero/all-0xff, and equal KCP conversation ids on
+   top - is an input class that ServerMux_Gen chooses and the rig concretises;
+   the invariants below do not depend on it, and that is the point.) *)
+KcpKey(id) == id
+ASSUME KcpKeyInjective == \A a, b \in Ids : KcpKey(a) = KcpKey(b) => a = b
+
 (* kcp.Listener.packetInput: sessions are keyed by the tag.  A packet whose
    conversation is not that of the existing session is ignored unless it is a
    first segment, which replaces the session (this is how a mis-tagged packet
@@ -256,7 +266,7 @@ Expire(id) ==
 KcpInput ==
   /\ recvQ # <<>>
   /\ LET e == Head(recvQ)
-         t == e.tag
+         t == KcpKey(e.tag)
      IN
        /\ recvQ' = Tail(recvQ)
        /\ IF sess[t] = "none" \/ (e.pkt.ses # conv[t] /\ e.pkt.seg = 1)
